@@ -136,7 +136,7 @@ def r3_enoent_discipline(ctx):
         for br in errno_branches(b, T):
             if br["bb"] not in after:
                 continue
-            tgt = cfg.edge_targets_reachable(br["eq"])
+            tgt = cfg.precise_reach(br["eq"])
             okret = any(s.kind == "assign" and s.lhs.local == 0 and s.rv["k"] == "agg" and s.rv.get("variant") == "Ok"
                         for x in tgt for s in b.blocks[x].stmts)
             scan = any(c.bb in tgt for c in b.calls("rustix::fs::Dir::read_from"))
